@@ -110,6 +110,12 @@ func runStoreCase(o *emitter, u *Universe, ci, blocks, maxBig int) {
 					v = make([]byte, 32) // digest-sized values
 				}
 				r.Read(v)
+				switch r.Intn(12) {
+				case 0:
+					v = nil // EMPTY value (the FSM writes such keys: Set(KeyForCommittee(..), nil)): present, leaf = hash("")
+				case 1:
+					v = []byte{}
+				}
 				if e := w.Set(k.User, v); e != nil {
 					panic(e)
 				}
